@@ -132,6 +132,8 @@ type Kernel struct {
 	tasks          int
 	// StripPrefix is removed from sites/ids in keys and hashes (world directory).
 	StripPrefix string
+	// StripPrefix2: a second directory whose name varies from process to process (scratch below $HOME)
+	StripPrefix2 string
 	// MaxEvents caps the number of decisions (watchdog against livelock).
 	MaxEvents int
 	// StopWhenIdle makes Run return "idle" at the first quiescent point at which no goroutine is parked.
@@ -169,6 +171,9 @@ func (k *Kernel) Rel(s string) string { return k.rel(s) }
 func (k *Kernel) rel(s string) string {
 	if k.StripPrefix != "" && strings.HasPrefix(s, k.StripPrefix) {
 		return s[len(k.StripPrefix):]
+	}
+	if k.StripPrefix2 != "" && strings.HasPrefix(s, k.StripPrefix2) {
+		return "~/" + s[len(k.StripPrefix2):]
 	}
 	return s
 }
@@ -430,7 +435,11 @@ func (k *Kernel) relAll(s string) string {
 	if k.StripPrefix == "" || s == "" {
 		return s
 	}
-	return strings.ReplaceAll(s, k.StripPrefix, "")
+	s = strings.ReplaceAll(s, k.StripPrefix, "")
+	if k.StripPrefix2 != "" {
+		s = strings.ReplaceAll(s, k.StripPrefix2, "~/")
+	}
+	return s
 }
 
 func siteClass(ev *Event) string {
